@@ -457,6 +457,12 @@ class Evaluator:
             recv = self.ev(f.value, env)
             if recv.kind == 'str' and f.attr in ('lower', 'upper', 'strip', 'casefold'):
                 return recv
+            if recv.kind == 'str' and f.attr in ('replace', 'rstrip', 'lstrip', 'removesuffix', 'removeprefix') and \
+                    recv.text in ('int', 'dec') and node.args and \
+                    all(isinstance(a, ast.Constant) and isinstance(a.value, str) for a in node.args) and \
+                    not any(ch.isdigit() or ch in '.+-eE' for ch in node.args[0].value):
+                # removing / replacing characters that numeric text does not contain leaves numeric text as it is
+                return recv
             if recv.kind == 'str' and f.attr == 'isdigit':
                 return const_av(recv.text == 'int')
             if recv.kind == 'datetime' and f.attr == 'date':
